@@ -9,6 +9,8 @@ import FmtModel.Members
                       declaration order; a member the format omits is the member's default;
   `C03_default_fmt` : a placeholder without a format uses the member's base format;
   `C03_repeats`     : repeated occurrences that agree are merged, occurrences that disagree are rejected;
+  `C03_repeats_inner`: the same when a directive is repeated inside a repeated occurrence (captures of different
+                      occurrences are kept apart);
   `C03_format`      : formatting is the members' renderings joined by the literal text, and parsing what was printed
                       gives the same group back;
   `C03_literal`     : escaped literal text with regex metacharacters around the placeholders matches itself;
@@ -66,6 +68,20 @@ theorem C03_repeats :
     gparse dA "7#7" "{date:%n}#{date:%n}" = mem [("date", "7"), ("datetime", ""), ("date_time", "v0.0.0")]
   ∧ gparse dA "7#8" "{date:%n}#{date:%n}" = .error .fmtValue
   ∧ gparse dA "1.2.3@1.2.4" "{date_time:%m.%n.%c}@{date_time:%m.%n.%c}" = .error .fmtValue := by decide +kernel
+
+/-- a directive repeated inside an occurrence that is itself repeated: the captures of the occurrences are kept
+    apart (`Gen.group_merge_apart`, read off the code's behaviour by the translator), so every statement of the field
+    takes part in the agreement check - whichever position disagrees, the string is refused -/
+theorem C03_repeats_inner :
+    Gen.group_merge_apart = true
+  ∧ gparse dA "7 7#7 7" "{date:%n %n}#{date:%n %n}" = mem [("date", "7"), ("datetime", ""), ("date_time", "v0.0.0")]
+  ∧ gparse dA "7 8#7 7" "{date:%n %n}#{date:%n %n}" = .error .fmtValue
+  ∧ gparse dA "7 7#8 7" "{date:%n %n}#{date:%n %n}" = .error .fmtValue
+  ∧ gparse dA "7 7#7 8" "{date:%n %n}#{date:%n %n}" = .error .fmtValue
+  ∧ gparse dA "7#7 7#7 7 7" "{date:%n}#{date:%n %n}#{date:%n %n %n}" = mem [("date", "7"), ("datetime", ""), ("date_time", "v0.0.0")]
+  ∧ gparse dA "7#7 7#7 8 7" "{date:%n}#{date:%n %n}#{date:%n %n %n}" = .error .fmtValue
+  ∧ gparse dA "7#7 8#7 7 7" "{date:%n}#{date:%n %n}#{date:%n %n %n}" = .error .fmtValue := by
+  refine ⟨?_, ?_, ?_, ?_, ?_, ?_, ?_, ?_⟩ <;> decide +kernel
 
 theorem C03_format :
     gfmt dA "12/data_engineer/1.2.3" "{date:%n}/{datetime:%s}/{date_time:%m.%n.%c}" "{datetime:%c}-{date:%p}+{date_time:%f}" = "dataEngineer-012+1_2_3"
